@@ -1193,10 +1193,15 @@ func (p *Polygon) decodeCompressed(d *decoder) {
 	}
 	// Polygons with no loops are explicitly allowed here: a newly created
 	// polygon has zero loops and such polygons encode and decode properly.
-	nloops := int(d.readUvarint())
-	if nloops > maxEncodedLoops {
-		d.err = fmt.Errorf("too many loops (%d; max is %d)", nloops, maxEncodedLoops)
+	nloopsEncoded := d.readUvarint()
+	if d.err != nil {
+		return
 	}
+	if nloopsEncoded > maxEncodedLoops {
+		d.err = fmt.Errorf("too many loops (%d; max is %d)", nloopsEncoded, maxEncodedLoops)
+		return
+	}
+	nloops := int(nloopsEncoded)
 	p.loops = make([]*Loop, nloops)
 	for i := range p.loops {
 		p.loops[i] = new(Loop)
